@@ -310,6 +310,49 @@ fn check_tx(rep: &mut Report, tx: &Transaction, cached: bool, layout: &Layout, b
     }
 }
 
+/// size-changing in-place edit (metadata, if any, stays attached)
+fn grow(tx: &mut Transaction, rng: &mut Rng) {
+    macro_rules! common {
+        ($t:expr) => {{
+            match rng.below(3) {
+                0 => $t.witnesses_mut().insert(0, rng.bytes_len_class(40).into()),
+                1 => {
+                    let v = rng.usize_below(7);
+                    $t.inputs_mut().insert(0, g::input(rng, v, 40, false))
+                }
+                _ => {
+                    let v = rng.usize_below(5);
+                    $t.outputs_mut().insert(0, g::output(rng, v))
+                }
+            }
+        }};
+    }
+    match tx {
+        Transaction::Script(t) => {
+            if rng.bool() {
+                let n = 1 + rng.usize_below(30);
+                t.script_mut().extend(rng.bytes(n));
+            } else if rng.bool() {
+                let n = 1 + rng.usize_below(30);
+                t.script_data_mut().extend(rng.bytes(n));
+            } else {
+                common!(t)
+            }
+        }
+        Transaction::Create(t) => common!(t),
+        Transaction::Upgrade(t) => common!(t),
+        Transaction::Upload(t) => {
+            if rng.bool() {
+                t.proof_set_mut().insert(0, g::bytes32(rng));
+            } else {
+                common!(t)
+            }
+        }
+        Transaction::Blob(t) => common!(t),
+        Transaction::Mint(_) => {}
+    }
+}
+
 fn one_case(rep: &mut Report, rng: &mut Rng, info: &Value, kind: usize, replay_tx: Option<Vec<u8>>) {
     let tx = match replay_tx {
         Some(b) => Transaction::from_bytes(&b).expect("replay tx"),
@@ -339,6 +382,24 @@ fn one_case(rep: &mut Report, rng: &mut Rng, info: &Value, kind: usize, replay_t
         Ok(Ok(())) => {
             rep.count("cached_variants_checked");
             check_tx(rep, &cached, true, &layout, &bytes, &replay);
+            // edit the cached transaction so that encoded sizes change, precompute again:
+            // the offsets must be those of the new content
+            let mut t2 = cached.clone();
+            grow(&mut t2, rng);
+            if let Ok(Ok(())) = guarded(|| t2.precompute(&ChainId::new(rng.word()))) {
+                let plain = Transaction::from_bytes(&t2.to_bytes()).expect("round trip");
+                let bytes2 = plain.to_bytes();
+                let (ref2, layout2) = canon::encode_tx(&plain);
+                if ref2 == bytes2 {
+                    rep.count("reprecomputed_variants_checked");
+                    let replay2 = json!({"info": info, "tx": hx(&bytes), "after_edit": hx(&bytes2), "what": "precompute, size-changing edit, precompute again"});
+                    let before = rep.violations.len();
+                    check_tx(rep, &t2, true, &layout2, &bytes2, &replay2);
+                    for v in rep.violations.iter_mut().skip(before) {
+                        v.signature = format!("{}|after edit + second precompute", v.signature);
+                    }
+                }
+            }
         }
         Ok(Err(e)) => rep.count(&format!("precompute_error_{e:?}").chars().take(60).collect::<String>()),
         Err(p) => rep.violation(format!("C04|precompute panics|{}", p.site()), p.text, || replay.clone()),
